@@ -117,3 +117,35 @@ Definition linsert {X : Type} (l : list X) (i : Z) (x : X) : list X := lins l i 
 
 (* a recursive call / a call of a function with fuel that ran out *)
 Definition is_some {X : Type} (o : option X) : bool := match o with Some _ => true | None => false end.
+
+(* ---- the keyboard-walk detector: layouts, records, dicts keyed by the layout name *)
+
+(* what _get_us_keyboard() / _get_jcuken_keyboard() return: {'name': ..., 'row1': [...],
+   's_row1': [...], ..., 's_row4': [...]}; the rows (lists of one-character strings) in
+   the order row1, s_row1, row2, s_row2, row3, s_row3, row4, s_row4 *)
+Record pyboard := { b_name : str; b_rows : list str }.
+(* board['row1'] ... board['s_row4'] *)
+Definition brow (b : pyboard) (i : nat) : str := nth i (b_rows b) [].
+
+(* a dict whose keys are strings (layout names), in insertion order *)
+Definition dict (V : Type) := list (str * V).
+Fixpoint d_get {V : Type} (d : dict V) (k : str) : option V :=        (* d[k]; None = KeyError *)
+  match d with
+  | [] => None
+  | (k0, v) :: r => if str_eqb k0 k then Some v else d_get r k
+  end.
+Fixpoint d_set {V : Type} (d : dict V) (k : str) (v : V) : dict V :=   (* d[k] = v *)
+  match d with
+  | [] => [(k, v)]
+  | (k0, v0) :: r => if str_eqb k0 k then (k0, v) :: r else (k0, v0) :: d_set r k v
+  end.
+Definition d_has {V : Type} (d : dict V) (k : str) : bool := is_some (d_get d k).   (* k in d *)
+Definition d_keys {V : Type} (d : dict V) : list str := map fst d.     (* list(d), for k in d *)
+Fixpoint d_pop {V : Type} (d : dict V) (k : str) : dict V :=           (* d.pop(k, None) *)
+  match d with
+  | [] => []
+  | (k0, v0) :: r => if str_eqb k0 k then r else (k0, v0) :: d_pop r k
+  end.
+
+(* row.index(char); None = ValueError *)
+Definition row_index (c : N) (row : str) : option Z := index_of c row 0.
